@@ -18,6 +18,9 @@ type CharSet struct {
 	sub        *CharSet //optional subtractor
 	negate     bool
 	anything   bool
+	// inverted is set when canonicalize replaced a positive class by the negation of the
+	// one range it left out; restore turns it back before more members are added
+	inverted bool
 
 	ascii *asciiBitmap
 }
@@ -171,6 +174,7 @@ func (c CharSet) Copy() CharSet {
 	ret := CharSet{
 		anything: c.anything,
 		negate:   c.negate,
+		inverted: c.inverted,
 	}
 
 	ret.ranges = append(ret.ranges, c.ranges...)
@@ -564,6 +568,7 @@ func (c *CharSet) addSet(set CharSet) {
 		c.makeAnything()
 		return
 	}
+	c.restore()
 	// just append here to prevent double-canon
 	c.ranges = append(c.ranges, set.ranges...)
 	c.addCategories(set.categories...)
@@ -583,6 +588,7 @@ func (c *CharSet) addCategories(cats ...Category) {
 		// just return, we're as broad as we can get
 		return
 	}
+	c.restore()
 
 	for _, ct := range cats {
 		found := false
@@ -610,6 +616,7 @@ func (c *CharSet) addRanges(ranges []SingleRange) {
 	if c.anything {
 		return
 	}
+	c.restore()
 	c.ranges = append(c.ranges, ranges...)
 	c.canonicalize()
 }
@@ -619,6 +626,7 @@ func (c *CharSet) addNegativeRanges(ranges []SingleRange) {
 	if c.anything {
 		return
 	}
+	c.restore()
 
 	var hi rune
 
@@ -714,6 +722,7 @@ func (c *CharSet) addCaseEquivalences() {
 	if c.anything {
 		return
 	}
+	c.restore()
 	rangeCount := len(c.ranges)
 	for i := 0; i < rangeCount; i++ {
 		r := c.ranges[i]
@@ -752,6 +761,7 @@ func (c *CharSet) addSubtraction(sub *CharSet) {
 }
 
 func (c *CharSet) addRange(chMin, chMax rune) {
+	c.restore()
 	c.ranges = append(c.ranges, SingleRange{First: chMin, Last: chMax})
 	c.canonicalize()
 }
@@ -872,6 +882,7 @@ func (c *CharSet) canonicalize() {
 				c.ranges[0].Last < c.ranges[1].First-1 {
 				c.ranges = []SingleRange{{c.ranges[0].Last + 1, c.ranges[1].First - 1}}
 				c.negate = true
+				c.inverted = true
 			}
 		} else if len(c.ranges) == 1 {
 			switch c.ranges[0].First {
@@ -880,12 +891,14 @@ func (c *CharSet) canonicalize() {
 				if c.ranges[0].Last == unicode.MaxRune-1 {
 					c.ranges[0] = SingleRange{unicode.MaxRune, unicode.MaxRune}
 					c.negate = true
+					c.inverted = true
 				}
 			case 1:
 				// Or everything but the first char?
 				if c.ranges[0].Last >= unicode.MaxRune {
 					c.ranges[0] = SingleRange{'\x00', '\x00'}
 					c.negate = true
+					c.inverted = true
 				}
 			}
 		}
@@ -916,10 +929,30 @@ func (c *CharSet) canonicalize() {
 			c.makeAnything()
 		} else {
 			c.negate = true
+			c.inverted = true
 			c.ranges = []SingleRange{{c.ranges[0].Last + 1, c.ranges[0].Last + 1}}
 			c.categories = []Category{}
 		}
 	}
+}
+
+// restore undoes the inversion canonicalize applied to a positive class that covered
+// everything but one range, so that further members are added to the class itself
+// and not to its complement
+func (c *CharSet) restore() {
+	if !c.inverted {
+		return
+	}
+	r := c.ranges[0]
+	c.ranges = c.ranges[:0]
+	if r.First > 0 {
+		c.ranges = append(c.ranges, SingleRange{0, r.First - 1})
+	}
+	if r.Last < unicode.MaxRune {
+		c.ranges = append(c.ranges, SingleRange{r.Last + 1, unicode.MaxRune})
+	}
+	c.negate = false
+	c.inverted = false
 }
 
 // Adds to the class any lowercase versions of characters already
@@ -928,6 +961,7 @@ func (c *CharSet) addLowercase() {
 	if c.anything {
 		return
 	}
+	c.restore()
 	toAdd := []SingleRange{}
 	for i := 0; i < len(c.ranges); i++ {
 		r := c.ranges[i]
